@@ -263,13 +263,45 @@ pub fn execute(cfg: PoolCfg, strat: &mut dyn Strategy, max_steps: usize) -> Exec
             }
             let now = Instant::now();
             if now >= deadline {
+                // A granted thread neither parked nor exited. If job bodies are running, let them
+                // finish: when the stuck thread then moves on, it was waiting for another
+                // connection to finish (stranded by something the probes do not show).
+                let running_jobs: Vec<usize> = st.threads.iter().filter_map(|t| if let At::InJob(j) = t.at { Some(j) } else { None }).collect();
+                let stuck = st.threads.iter().filter(|t| matches!(t.at, At::Running)).count();
+                if stuck > 0 && !running_jobs.is_empty() && st.threads.len() >= st.expected {
+                    for j in &running_jobs {
+                        st.released[*j] = true;
+                    }
+                    for t in st.threads.iter_mut() {
+                        if matches!(t.at, At::InJob(_)) {
+                            t.granted = true;
+                        }
+                    }
+                    sched.cv.notify_all();
+                    let d2 = Instant::now() + Duration::from_secs(5);
+                    let mut moved = false;
+                    while Instant::now() < d2 {
+                        let (g, _) = sched.cv.wait_timeout(st, Duration::from_millis(50)).unwrap();
+                        st = g;
+                        if st.threads.iter().filter(|t| matches!(t.at, At::Running)).count() < stuck + running_jobs.len() && st.threads.iter().any(|t| matches!(t.at, At::Probe(SiteK::Deq, 0, _))) {
+                            moved = true;
+                            break;
+                        }
+                    }
+                    if moved {
+                        res.violation = Some(("c14:stranded-behind-running-job".into(), format!("a worker that was given a queued job did not start it for 10 s while {} job(s) were running with max={}; it started once they finished", running_jobs.len(), cfg.max)));
+                    } else {
+                        res.inconclusive = Some("threads did not settle within 10 s (also not after letting running jobs finish)".into());
+                    }
+                    break;
+                }
                 res.inconclusive = Some(format!("threads did not settle within 10 s: {} registered, {} expected", st.threads.len(), st.expected));
                 break;
             }
             let (g, _) = sched.cv.wait_timeout(st, Duration::from_millis(50).min(deadline - now)).unwrap();
             st = g;
         }
-        if res.inconclusive.is_some() {
+        if res.inconclusive.is_some() || res.violation.is_some() {
             break;
         }
         let next_job = st.threads.iter().find_map(|t| if let At::AccIdle(j) = t.at { Some(j) } else { None }).unwrap_or(cfg.jobs);
@@ -486,7 +518,7 @@ pub fn shard_main(tier: Tier, seed: u64, shard: usize, nshards: usize) -> i32 {
                 exhausted = true;
                 break;
             }
-            if n >= dfs_cap || violations.len() >= 5 {
+            if n >= dfs_cap || violations.len() >= 3 || out["inconclusive"].as_u64().unwrap_or(0) >= 3 {
                 break;
             }
         }
@@ -494,7 +526,7 @@ pub fn shard_main(tier: Tier, seed: u64, shard: usize, nshards: usize) -> i32 {
         // random walks (larger configurations benefit most)
         let mut rw = RandomWalk { rng: Rng::lane(seed, 5000 + ci as u64) };
         for _ in 0..rand_n {
-            if violations.len() >= 5 {
+            if violations.len() >= 3 || out["inconclusive"].as_u64().unwrap_or(0) >= 3 {
                 break;
             }
             let r = execute(*cfg, &mut rw, 400);
